@@ -333,6 +333,7 @@ func (r *locksetRun) analyse(info *lockFnInfo, final bool) (changed bool) {
 	}
 
 	fresh := freshLocals(f)
+	noCarry := false
 	need := func(key string, mode lockMode, pos token.Pos, field string, write bool, st lockState, why string) {
 		if st[key] >= mode {
 			if final {
@@ -341,7 +342,7 @@ func (r *locksetRun) analyse(info *lockFnInfo, final bool) (changed bool) {
 			return
 		}
 		// can this function carry the requirement? only for locks on its own receiver / parameters
-		if r.mayCarry(f) && (strings.HasPrefix(key, "recv.") || strings.HasPrefix(key, "p")) {
+		if !noCarry && r.mayCarry(f) && (strings.HasPrefix(key, "recv.") || strings.HasPrefix(key, "p")) {
 			if info.requires[key] < mode {
 				info.requires[key] = mode
 				changed = true
@@ -485,9 +486,12 @@ func (r *locksetRun) analyse(info *lockFnInfo, final bool) (changed bool) {
 			for k, m := range ci.requires {
 				held := st
 				if async {
+					// a go/defer target does not run under the spawner's locks: the spawner cannot discharge the requirement
 					held = lockState{}
+					noCarry = true
 				}
 				need(translate(k), m, call.Pos(), "call:"+calleeName, m == lockW, held, "callee "+calleeName+" requires "+k)
+				noCarry = false
 			}
 		}
 		// function literal arguments
